@@ -164,7 +164,7 @@ def random_spec(rng, *, n, basis="ising", layout=None, dmin=6.0, spread=0.6, n_p
         order = [int(i) for i in rng.permutation(n)]
     atoms = [[ids[k], pts[i][0], pts[i][1]] for k, i in enumerate(order)]
     wf_kinds = wf_kinds or WF_KINDS
-    phase_mode = phase_mode or str(rng.choice(["zero", "const", "random", "mixed"]))
+    phase_mode = phase_mode or str(rng.choice(["zero", "const", "random", "mixed", "special"]))
     ph0 = float(rng.uniform(0, TWO_PI))
     spec = {"basis": basis, "device": "vmod" if modulation else "mock", "atoms": atoms, "ops": [], "has_global": has_global}
     chans = ["g"] if has_global or basis == "xy" else []
@@ -194,7 +194,11 @@ def random_spec(rng, *, n, basis="ising", layout=None, dmin=6.0, spread=0.6, n_p
         det = rand_wf(rng, dur, kd if kd != "blackman" else "ramp", -det_max, det_max, False)
         phase = 0.0 if phase_mode == "zero" else ph0 if phase_mode == "const" else float(rng.uniform(0, TWO_PI))
         if phase_mode == "mixed" and rng.random() < 0.5:
-            phase = 0.0  # exact zeros next to non-zero phases: the emulators have a separate code path for phase == 0
+            # exact zeros (and exact pi, pi/2) next to generic phases: the emulators have a separate code path for phase == 0,
+            # and sin(phase) == 0 without cos(phase) == 1 is the classic shortcut mistake
+            phase = float(rng.choice([0.0, 0.0, math.pi, math.pi / 2]))
+        if phase_mode == "special":
+            phase = float(rng.choice([0.0, math.pi, math.pi / 2, 3 * math.pi / 2]))
         if ch == "l" and rng.random() < 0.5:
             spec["ops"].append({"op": "target", "ch": "l", "q": str(rng.choice(ids))})
         spec["ops"].append({"op": "pulse", "ch": ch, "amp": amp, "det": det, "phase": phase,
